@@ -298,7 +298,8 @@ def hypothesis_shard(item: dict[str, Any]) -> Collector:
         scaled = draw(st.integers(0, 2)) == 0
         case: dict[str, Any] = {
             "n": n, "R": r_n, "P": p_n, "K": k_n, "C": c_n, "merge": merge, "weights": weights,
-            "obj_weights": [draw(st.sampled_from([1.0, 2.0, 0.5])) for _ in range(k_n)],
+            # (an objective with weight zero is monitored only: its reported gradient is estimated like any other)
+            "obj_weights": [draw(st.sampled_from([1.0, 2.0, 0.5]))] + [draw(st.sampled_from([1.0, 2.0, 0.5, 0.0])) for _ in range(k_n - 1)],
             "estimators": estimators, "obj_est": [draw(st.integers(0, len(estimators) - 1)) for _ in range(k_n)],
             "con_est": [draw(st.integers(0, len(estimators) - 1)) for _ in range(c_n)],
             "filters": filters, "obj_filt": [draw(st.integers(-1, 0)) for _ in range(k_n)],
